@@ -592,6 +592,34 @@ def shrink_tokens(tokens, still_fails, keep_first=0, max_rounds=200):
     return cur
 
 
+def shrink_tokens_batch(tokens, fails_many, keep_first=0, max_rounds=60):
+    """Delta debugging where all candidates of a round (every way to delete one chunk of the current size) are
+    evaluated in ONE batch: fails_many(list of token lists) -> list of bool.  Takes the first candidate that
+    still fails.  Costs a few processes per round instead of one per candidate."""
+    cur = list(tokens)
+    chunk = max(1, (len(cur) - keep_first) // 2)
+    rounds = 0
+    while chunk >= 1 and rounds < max_rounds:
+        cands = []
+        i = keep_first
+        while i < len(cur):
+            c = cur[:i] + cur[i + chunk:]
+            if len(c) < len(cur) and len(c) > keep_first - 1:
+                cands.append(c)
+            i += chunk
+        if not cands:
+            break
+        rounds += 1
+        res = fails_many(cands)
+        hit = [c for c, r in zip(cands, res) if r]
+        if hit:
+            cur = min(hit, key=len)
+            chunk = min(chunk, max(1, (len(cur) - keep_first) // 2))
+        else:
+            chunk //= 2
+    return cur
+
+
 class Differential:
     """The standard tie (H): the same cases through the implementation driver (I), the extracted
     model (R) and the extracted specification (S).
@@ -641,14 +669,14 @@ class Differential:
                 # shrink only a bounded number of these
                 if nshrunk >= max_report:
                     continue
-            if shrink and nshrunk < 3 * max_report:
+            if shrink and nshrunk < max_report:
                 nshrunk += 1
 
-                def still(tokens):
-                    l = self.sep.join(tokens)
-                    i1, r1, s1 = self.eval([l], parallel=False)
-                    return self.fails_spec(i1[0], s1[0])
-                small = self.sep.join(shrink_tokens(line.split(self.sep), still, keep_first=self.keep_first))
+                def still_many(cands):
+                    ls = [self.sep.join(t) for t in cands]
+                    i1, r1, s1 = self.eval(ls, parallel=False)
+                    return [self.fails_spec(a, b) for a, b in zip(i1, s1)]
+                small = self.sep.join(shrink_tokens_batch(line.split(self.sep), still_many, keep_first=self.keep_first))
             else:
                 small = line
             if small in reported:
